@@ -17,10 +17,43 @@ import (
 type (
 	Once   = sync.Once
 	Map    = sync.Map
-	Pool   = sync.Pool
 	Cond   = sync.Cond
 	Locker = sync.Locker
 )
+
+// Pool is a deterministic sync.Pool: a LIFO stack.  The real one hands items
+// out per P, i.e. depending on where the runtime happened to run a goroutine,
+// which would make executions unrepeatable; any Put item may legally be
+// returned by any Get, so a stack is one of the real pool's behaviours.
+type Pool struct {
+	New   func() interface{}
+	mu    sync.Mutex
+	items []interface{}
+}
+
+func (p *Pool) Get() interface{} {
+	p.mu.Lock()
+	if n := len(p.items); n > 0 {
+		x := p.items[n-1]
+		p.items = p.items[:n-1]
+		p.mu.Unlock()
+		return x
+	}
+	p.mu.Unlock()
+	if p.New != nil {
+		return p.New()
+	}
+	return nil
+}
+
+func (p *Pool) Put(x interface{}) {
+	if x == nil {
+		return
+	}
+	p.mu.Lock()
+	p.items = append(p.items, x)
+	p.mu.Unlock()
+}
 
 // NewCond mirrors sync.NewCond.
 func NewCond(l Locker) *Cond { return sync.NewCond(l) }
